@@ -58,6 +58,7 @@ func (f *Frame) mapInfo(t types.Type) mapKeys {
 		f.abort("map type %s not modelled", t)
 	}
 	k := canonKey(mt)
+	f.s.mapAxioms("md:"+k, "ml:"+k, ks)
 	return mapKeys{dom: "md:" + k, val: "mv:" + k, ln: "ml:" + k,
 		domS: arrSort("Int", arrSort(ks, "Bool")), valS: arrSort("Int", arrSort(ks, vs)), lnS: arrSort("Int", "Int"),
 		kSort: ks, vSort: vs, kType: mt.Key(), vType: mt.Elem()}
@@ -205,4 +206,21 @@ func (f *Frame) next(x *ssa.Next) {
 	nc := s.freshConst("itcnt", "Int")
 	s.fact(eq(nc, ite(okc, app("+", cnt, "1"), cnt)))
 	f.cur.heap[cntKey] = nc
+}
+
+// mapAxioms: in the entry state a map that has a key has a positive length, and lengths are never negative.
+func (s *Session) mapAxioms(domKey, lenKey, kSort string) {
+	if s.closureDone["map:"+domKey] {
+		return
+	}
+	s.closureDone["map:"+domKey] = true
+	dom := s.hget(s.entry, domKey, arrSort("Int", arrSort(kSort, "Bool")))
+	ln := s.hget(s.entry, lenKey, arrSort("Int", "Int"))
+	s.sorts[domKey] = arrSort("Int", arrSort(kSort, "Bool"))
+	s.sorts[lenKey] = arrSort("Int", "Int")
+	saved := s.curBlk
+	s.curBlk = nil
+	s.fact(fmt.Sprintf("(forall ((r Int) (k %s)) (! (=> (select (select %s r) k) (> (select %s r) 0)) :pattern ((select (select %s r) k))))", kSort, dom, ln, dom))
+	s.fact(fmt.Sprintf("(forall ((r Int)) (! (>= (select %s r) 0) :pattern ((select %s r))))", ln, ln))
+	s.curBlk = saved
 }
